@@ -52,17 +52,33 @@ fn expected(dialer: &[String], listener: &[String]) -> Option<String> {
     dialer.iter().find(|p| listener.contains(p)).cloned()
 }
 
-async fn app_dialer<S: futures::io::AsyncRead + futures::io::AsyncWrite + Unpin>(mut io: S, send: Vec<u8>, expect_len: usize) -> Result<Vec<u8>, String> {
+/// `listener_first`: the protocol's first application message comes from the listener, so the
+/// dialer's first operation on the negotiated stream is a read (with the lazy dialer the bytes of
+/// the negotiation that are still pending have to go out before it).
+async fn app_dialer<S: futures::io::AsyncRead + futures::io::AsyncWrite + Unpin>(mut io: S, send: Vec<u8>, expect_len: usize, listener_first: bool) -> Result<Vec<u8>, String> {
+    let mut buf = vec![0u8; expect_len];
+    if listener_first {
+        io.read_exact(&mut buf).await.map_err(|e| format!("read: {e:?}"))?;
+        io.write_all(&send).await.map_err(|e| format!("write: {e:?}"))?;
+        io.flush().await.map_err(|e| format!("flush: {e:?}"))?;
+        return Ok(buf);
+    }
     io.write_all(&send).await.map_err(|e| format!("write: {e:?}"))?;
     io.flush().await.map_err(|e| format!("flush: {e:?}"))?;
-    let mut buf = vec![0u8; expect_len];
     io.read_exact(&mut buf).await.map_err(|e| format!("read: {e:?}"))?;
     // nothing extra may follow
     Ok(buf)
 }
 
-async fn app_listener<S: futures::io::AsyncRead + futures::io::AsyncWrite + Unpin>(mut io: S, send: Vec<u8>, expect_len: usize) -> Result<Vec<u8>, String> {
+async fn app_listener<S: futures::io::AsyncRead + futures::io::AsyncWrite + Unpin>(mut io: S, send: Vec<u8>, expect_len: usize, listener_first: bool) -> Result<Vec<u8>, String> {
     let mut buf = vec![0u8; expect_len];
+    if listener_first {
+        io.write_all(&send).await.map_err(|e| format!("write: {e:?}"))?;
+        io.flush().await.map_err(|e| format!("flush: {e:?}"))?;
+        io.read_exact(&mut buf).await.map_err(|e| format!("read: {e:?}"))?;
+        io.close().await.map_err(|e| format!("close: {e:?}"))?;
+        return Ok(buf);
+    }
     io.read_exact(&mut buf).await.map_err(|e| format!("read: {e:?}"))?;
     io.write_all(&send).await.map_err(|e| format!("write: {e:?}"))?;
     io.flush().await.map_err(|e| format!("flush: {e:?}"))?;
@@ -129,6 +145,8 @@ impl Prop for C03 {
             "dialer_payload": *rng.pick(&[1u64, 2, 20, 21, 300, 5000]),
             "listener_payload": *rng.pick(&[1u64, 2, 20, 300, 5000]),
             "grouping": rng.below(4),
+            // who speaks first after the negotiation (independent stream of the seed)
+            "listener_first": Rng::fork(seed, "c03-order").chance(1, 3),
         })
     }
 
@@ -145,6 +163,7 @@ impl Prop for C03 {
             let listener: Vec<String> = case["listener"].as_array().map(|a| a.iter().filter_map(|x| x.as_str().map(|s| s.to_string())).collect()).unwrap_or_default();
             let mode = case["mode"].as_str().unwrap_or("stream").to_string();
             let lazy = case["lazy"].as_bool().unwrap_or(false);
+            let listener_first = case["listener_first"].as_bool().unwrap_or(false);
             let exp = expected(&dialer, &listener);
             if dialer.is_empty() {
                 return Box::new(|| {});
@@ -181,7 +200,7 @@ impl Prop for C03 {
                         match ms::dialer_select_proto(a, dialer.clone(), v).await {
                             Ok((p, io)) => {
                                 world.lock().unwrap().dialer = Some(Ok(p));
-                                let r = app_dialer(io, pd, pl_len).await;
+                                let r = app_dialer(io, pd, pl_len, listener_first).await;
                                 world.lock().unwrap().dialer_got = Some(r);
                             }
                             Err(e) => world.lock().unwrap().dialer = Some(Err(format!("{e:?}"))),
@@ -191,7 +210,7 @@ impl Prop for C03 {
                         match rs_multistream_select::dialer_select_proto(a, dialer.clone(), v).await {
                             Ok((p, io)) => {
                                 world.lock().unwrap().dialer = Some(Ok(p));
-                                let r = app_dialer(io, pd, pl_len).await;
+                                let r = app_dialer(io, pd, pl_len, listener_first).await;
                                 world.lock().unwrap().dialer_got = Some(r);
                             }
                             Err(e) => world.lock().unwrap().dialer = Some(Err(format!("{e:?}"))),
@@ -210,7 +229,7 @@ impl Prop for C03 {
                         match ms::listener_select_proto(b, listener.clone()).await {
                             Ok((p, io)) => {
                                 world.lock().unwrap().listener = Some(Ok(p));
-                                let r = app_listener(io, pl, pd_len).await;
+                                let r = app_listener(io, pl, pd_len, listener_first).await;
                                 world.lock().unwrap().listener_got = Some(r);
                             }
                             Err(e) => world.lock().unwrap().listener = Some(Err(format!("{e:?}"))),
@@ -219,7 +238,7 @@ impl Prop for C03 {
                         match rs_multistream_select::listener_select_proto(b, listener.clone()).await {
                             Ok((p, io)) => {
                                 world.lock().unwrap().listener = Some(Ok(p));
-                                let r = app_listener(io, pl, pd_len).await;
+                                let r = app_listener(io, pl, pd_len, listener_first).await;
                                 world.lock().unwrap().listener_got = Some(r);
                             }
                             Err(e) => world.lock().unwrap().listener = Some(Err(format!("{e:?}"))),
@@ -248,7 +267,7 @@ impl Prop for C03 {
             Box::new(move || {
                 let w = world.lock().unwrap();
                 let short = |v: &Vec<String>| v.iter().map(|s| if s.len() > 24 { format!("{}..({})", &s[..12], s.len()) } else { s.clone() }).collect::<Vec<_>>();
-                let ctx = format!("mode {mode}, {} dialer list {:?}, listener set {:?}", if lazy { "V1Lazy" } else { "V1" }, short(&dialer), short(&listener));
+                let ctx = format!("mode {mode}, {} dialer list {:?}, listener set {:?}, {} speaks first", if lazy { "V1Lazy" } else { "V1" }, short(&dialer), short(&listener), if listener_first { "listener" } else { "dialer" });
                 let d_done = matches!(&w.dialer, Some(Err(_))) || w.dialer_got.is_some();
                 let l_done = matches!(&w.listener, Some(Err(_))) || w.listener_got.is_some();
                 if !d_done || !l_done {
